@@ -43,3 +43,11 @@ check('C04', 'exploration', 'property-based testing: hit-time histories vs refer
       '"other thread\'s" hit inside the first at its yield points (clock read, host __str__ during collection) and with '
       'gated real threads; bounds (count, spacing, all-allowed-must-collect) are asserted.',
       'Overlap at call-out granularity only; three known findings (overlap during collection x2, window args dropped).')
+check('C01', 'fault_enumeration', 'differential property-based testing (agent-free run vs traced run) + nth-call fault injection from a dry-run inventory',
+      'Generated programs holding hostile values run without and with the real handler installed via threading.settrace, '
+      'with generated tracepoints of all kinds (malformed, raising expressions incl. BaseException), plugins raising in any '
+      'callback, and faults injected at the k-th call of any agent function the dry run reached. The observation must be '
+      'identical, no agent exception may reach program code, the thread trace function must still be installed, and the '
+      'program must not hang.',
+      'Fault points are drawn from every function/method/property of 20 agent modules reached by the case; the entry '
+      'function itself is excluded. Internal faults are Exception subclasses.')
